@@ -1,5 +1,5 @@
 #!/venv/bin/python
-"""coverage_map.py [--tier quick] [-j N] [Cxx …]  —  which library code do the ties reach?
+"""coverage_map.py [--tier quick] [-j N] [--real-evidence] [Cxx …]  —  which library code do the ties reach?
 
 Runs every registered check against /repo with VERIF_COVER (lib.start_cover: sys.monitoring line events in the harness
 process, evidence redirected to a scratch directory so the committed evidence is untouched) and combines that with the T1
@@ -94,11 +94,13 @@ def t1_mentions():
     return out
 
 
-def run_one(prop, tier, scratch):
+def run_one(prop, tier, scratch, real_evidence=False):
     cov = os.path.join(scratch, prop + '.cover.json')
     ev = os.path.join(scratch, 'ev-' + prop)
     os.makedirs(ev, exist_ok=True)
-    env = dict(os.environ, VERIF_COVER=cov, VERIF_EVIDENCE_DIR=ev)
+    env = dict(os.environ, VERIF_COVER=cov)
+    if not real_evidence:
+        env['VERIF_EVIDENCE_DIR'] = ev
     p = subprocess.run([os.path.join(VERIF, 'harness', 'check.py'), prop, '--tier', tier], env=env, cwd=VERIF,
                        stdout=subprocess.PIPE, stderr=subprocess.STDOUT, text=True)
     tail = p.stdout.strip().split('\n')[-1][:160]
@@ -113,16 +115,18 @@ def main(argv):
     tier = 'quick'
     j = 4
     want = []
+    real_ev = False
     i = 1
     while i < len(argv):
         if argv[i] == '--tier': tier = argv[i + 1]; i += 2
         elif argv[i] == '-j': j = int(argv[i + 1]); i += 2
+        elif argv[i] == '--real-evidence': real_ev = True; i += 1
         else: want.append(argv[i].upper()); i += 1
     props = want or PROPS
     scratch = tempfile.mkdtemp(prefix='pv-cover-')
     try:
         with ThreadPoolExecutor(j) as ex:
-            results = list(ex.map(lambda p: run_one(p, tier, scratch), props))
+            results = list(ex.map(lambda p: run_one(p, tier, scratch, real_ev), props))
     finally:
         pass
     hit = {}        # file -> line -> set(props)
